@@ -233,9 +233,12 @@ def gen_feed(rng, case, frac_reporting=None, threshold=100, special=True, n_unex
         used.add(uid)
         dem = rng.randint(0, 400)
         gop = rng.randint(0, 400)
+        zero_votes = rng.random() < 0.3      # a unit that has not sent any votes yet: its group may hold nothing but zeros
+        if zero_votes:
+            dem = gop = 0
         feed.append({
             "postal_code": st, "geographic_unit_fips": uid, "results_dem": dem, "results_gop": gop,
-            "results_turnout": dem + gop + rng.randint(0, 20),
+            "results_turnout": dem + gop + (0 if zero_votes else rng.randint(0, 20)),
             "percent_expected_vote": rng.choice([0, 50, 100]),
         })
         notes[uid] = "unexpected"
@@ -321,6 +324,11 @@ def gen_case(rng, pi_method=None, threshold=None, **kw):
     if kw.get("blocklist", True) and rng.random() < 0.4:
         ids = [r["geographic_unit_fips"] for r in case["feed"]]
         mp["unit_blocklist"] = rng.sample(ids, min(len(ids), rng.randint(1, 2)))
+    if kw.get("blocklist", True):
+        # a unit that meets two exclusion reasons at once (zero baseline AND blocklisted)
+        zb = [u for u, role in case.get("notes", {}).items() if str(role).startswith("zero_baseline")]
+        if zb and rng.random() < 0.6:
+            mp["unit_blocklist"] = sorted(set(mp.get("unit_blocklist", [])) | {rng.choice(zb)})
     if kw.get("blocklist", True) and len(case["states"]) > 2 and rng.random() < 0.2:
         mp["postal_code_blocklist"] = [case["states"][-1]]
     if "outlier" in kw and not kw["outlier"]:
